@@ -1,4 +1,4 @@
-from .manifest_gen import check, NOT_APPLICABLE  # noqa
+from .manifest_reg import check, NOT_APPLICABLE  # noqa
 
 TRUSTED = ('Trusted base: TLC/SANY and the CommunityModules Java overrides; the TLA+ definitions (written from the property '
            'statement, cross-checked by algorithm==definition model checks and negative controls); the harness projection '
